@@ -1093,6 +1093,8 @@ def packet_loop_progress(an, prog, b, comp):
     d = prog.body(c.path)
     if d is None:
         return False, "dispatcher body missing"
+    if not any(c2 is not None and c2.local and c2.path in VERSION_PARSERS.values() for _, _, c2 in d.calls()):
+        d = role_body(prog, c.path) or d        # the version match lives in a private piece of the dispatcher
     from .layout import Layouts
     lay = Layouts(prog, an)
     consumed = None
